@@ -73,3 +73,6 @@ PROPS["C05"] = {
                     "offsets stay below 2^63-1 (no int64 wrap-around of offset+1)",
                     "reconnect path of runIncrementalSync (a second SendPSyncContinue whose results are discarded) is outside this property's model"],
 }
+
+# wall time is dominated by real timers / per-configuration groups: no budget escalation on source changes
+PROPS["C05"]["escalate"] = False
